@@ -10,4 +10,4 @@ Definition roots :=
    Random.Enum.solution_count, Random.Enum.preamble_solution_count, Random.Enum.leftover_solution_count,
    Random.Frag.frag0, Random.FragSem.code_sem, Random.Frag.tseq_of_run, Random.FragSem.keys_of, Random.FragSem.check_sound,
    Random.FragSem.check_inj, Random.FragSem.check_complete, Random.FragSem.check_count,
-   Random.Frag.frag1, Random.Frag.rejection_free, Random.FragSem.check_accepted_count, Random.FragSem.accepted_count_of).
+   Random.Frag.frag1, Random.Frag.frag2, Random.FragSem.enumerates_b, Random.Frag.rejection_free, Random.FragSem.check_accepted_count, Random.FragSem.accepted_count_of).
